@@ -163,6 +163,9 @@ def run(v):
     thorough = common.tier() == 'thorough'
     seed = common.seed()
     rnd = random.Random(seed)
+    # Tagging.tla: every tag-list body up to 4 / 5 bytes: a well-formed one decodes to exactly its tags and re-encodes to itself
+    from . import taggingmodel
+    taggingmodel.check(v, 'C18')
     r = tlc.run('CompositeMetadata', 'CompositeMetadata.cfg', workers=1, timeout=600, name='cm')
     if not r.finished:
         raise common.Machinery('TLC did not finish on CompositeMetadata: ' + r.out[-1500:])
